@@ -1031,7 +1031,52 @@ fn gen_e2e(rng: &mut Rng, stats: &mut Stats) -> String {
     )
 }
 
+/// Directed end-to-end histories at the two borders of the property (every run, independent of the seed):
+///  * stat border: a file rewritten IN PLACE with the same size and the same mtime — the ctime is the only witness of the change —
+///    under all eight combinations of ignore_ctime / ignore_inode / skip_if_unchanged (top level and inside a directory; with and
+///    without an inode change).  Unless `ignore_ctime` is set the file must be read again (seeded change C11-1: `ignore_inode`
+///    also ignored the ctime).
+///  * index border: an unchanged multi-chunk file of the parent of which only SOME chunks are still indexed — the first chunk
+///    survives (alone, or because another file shares it), a later one is gone; also first-only-gone and all-gone.  The file must be
+///    read again and the new snapshot must be readable (seeded change C11-2: only the first chunk was probed).
+fn directed_e2e(ops: &mut Vec<String>, stats: &mut Stats) {
+    let file = |content: &[u64], ctime: i64, inode: u64| T::File { content: content.to_vec(), mtime: 100, ctime, inode };
+    let tree = |f: T, h: T| -> Vec<(Vec<u8>, T)> {
+        vec![
+            (b"a".to_vec(), file(&[1], 200, 11)),
+            (b"d".to_vec(), T::Dir { children: vec![(b"h".to_vec(), h)], mtime: 100, ctime: 200, inode: 13 }),
+            (b"f".to_vec(), f),
+        ]
+    };
+    let enc = |t: &[(Vec<u8>, T)]| {
+        let mut v = vec![];
+        flatten(t, &[], &mut v);
+        enc_src(&v)
+    };
+    let a = tree(file(&[1, 2, 3], 200, 12), file(&[5, 6, 507], 200, 14));
+    // stat border
+    for flags in ["000", "001", "010", "011", "100", "101", "110", "111"] {
+        let edits = [
+            tree(file(&[21, 22, 23], 201, 12), file(&[5, 6, 507], 200, 14)),
+            tree(file(&[1, 2, 3], 200, 12), file(&[25, 26, 557], 201, 14)),
+            tree(file(&[21, 22, 23], 201, 1012), file(&[25, 26, 557], 201, 14)),
+        ];
+        for b in &edits {
+            ops.push(format!("c11 e2e {flags} x {} - - - {}", enc(&a), enc(b)));
+            stats.hit("c11.e2e.directed.content+ctime-only");
+        }
+    }
+    // index border: B = A, some chunks of the parent's files no longer indexed
+    for flags in ["000", "010", "110", "001"] {
+        for rm in [&[2u64][..], &[3], &[2, 3], &[1], &[1, 2, 3], &[6], &[507], &[6, 507], &[5], &[2, 507]] {
+            ops.push(format!("c11 e2e {flags} x {} - {} - {}", enc(&a), enc_labels(rm), enc(&a)));
+            stats.hit("c11.e2e.directed.partly-indexed-file");
+        }
+    }
+}
+
 pub fn generate(thorough: bool, rng: &mut Rng, ops: &mut Vec<String>, stats: &mut Stats) {
+    directed_e2e(ops, stats);
     let n_proc = if thorough { 6000 } else { 500 };
     for _ in 0..n_proc {
         let mut r = rng.fork();
